@@ -577,3 +577,23 @@ class Report:
             tail = "" if kind == "counterexample" else " no-failing-input-found"
             print(f"VIOLATION property={self.prop_id} replay={path}{tail}", flush=True)
         return 1
+
+
+# ---------------------------------------------------------------------------------------------------
+# Table 2 / P1 table of the CURRENT /repo, parsed by the translator's tokenising parser (format-insensitive:
+# hex, digit-group underscores, constant expressions, comments) -- never by ad-hoc regular expressions.
+_T2 = None
+
+
+def repo_table2():
+    """-> (rows [(K', J, S, H, W)], p1 {K': P1}) as written in /repo/src/systematic_constants.rs now"""
+    global _T2
+    if _T2 is None:
+        sys.path.insert(0, os.path.join(VERIF, "translator"))
+        import rs2v
+        rs2v.collect_named_consts(REPO)
+        src = rs2v.read(REPO, "src/systematic_constants.rs")
+        rows = rs2v.tuple_rows(rs2v.find_array(src, "SYSTEMATIC_INDICES_AND_PARAMETERS"), 5)
+        p1 = dict(rs2v.tuple_rows(rs2v.find_array(src, "P1_TABLE"), 2))
+        _T2 = (rows, p1)
+    return _T2
